@@ -272,7 +272,13 @@ func c15Body(s *simkit.Sim, rc *simkit.RunCtx) {
 			pmu.Lock()
 			privs = append(privs, p)
 			pmu.Unlock()
-			tpl := network.TransactionTemplate("application/x-sim-private", payload, kids[creator]).WithPrivate(participants)
+			// signed by key id: the transaction must refer to the transaction(s) that published the signer's document
+			_, meta, rerr := w.Nodes[creator].DIDs.Resolve(dids[creator], nil)
+			if rerr != nil {
+				err = rerr
+				return
+			}
+			tpl := network.TransactionTemplate("application/x-sim-private", payload, kids[creator]).WithPrivate(participants).WithAdditionalPrevs(meta.SourceTransactions)
 			tx, err = w.Nodes[creator].Net.CreateTransaction(world.Ctx(), tpl)
 		})
 		if err != nil {
